@@ -20,7 +20,8 @@ RULE = ("kind real: zoo crystals (pair model) x meshes (incl. 1 along an axis, s
         "every frequency (same mesh), direction-projected PDOS >= 0, C tetrahedron-DOS kernel equals the Python iterator; "
         "kind field: synthetic frequency fields (smooth, rough, exact ties, constant bands) on grids whose reciprocal lattice makes each of the 4 main diagonals "
         "the shortest: J in [0,1], non-decreasing, (J(w+h)-J(w-h))/2h = I(w) for two h, TetrahedronMethod C == Py per grid point, 4x5 (central-vertex position x interval) table; "
-        "non-trivial = more than one grid point and a non-constant field; distinct = full parameter tuple")
+        "non-trivial = more than one grid point and a non-constant field; distinct = full parameter tuple; "
+        "additions of rounds 6-8: frequency window as Python ints / numpy ints / float32 / mixtures = float window; descending and shuffled grids")
 ASSUMPTIONS = [
     "frequencies w are drawn generically (never exactly at a vertex value) where C and Py are compared",
     "smearing quadrature: trapezoid on the code's own frequency grid spanning +-10 sigma at pitch <= sigma/5, tolerance 2e-3 (normal); Cauchy tails truncated analytically",
